@@ -2170,18 +2170,39 @@ impl HnswBackend {
 
         // Crash-safe ordering:
         // 1) Persist snapshot pointer while keeping full WAL segment list.
-        // 2) Compact WAL files.
-        // 3) Persist pruned WAL segment list.
+        // 2) Select fully-covered WAL segments and persist the pruned WAL segment list.
+        // 3) Only then delete the selected WAL files.
+        // A crash between 2) and 3) leaves unreferenced files behind (harmless); deleting
+        // first would leave a MANIFEST that lists missing segments, which strict recovery
+        // refuses to start from.
         manifest.save(&manifest_path)?;
 
         // WAL Compaction: Delete old WAL segments that are fully captured in the snapshot.
         // This prevents unbounded disk usage growth when WAL rotation is enabled.
-        let compacted = self.compact_old_wal_segments(
+        let compactable = self.compact_old_wal_segments(
             &persistence.data_dir,
             last_wal_seq,
             snapshot.timestamp,
             &mut manifest,
         )?;
+
+        manifest.latest_snapshot_wal_seq = Some(last_wal_seq);
+        manifest.save(&manifest_path)?;
+
+        let mut compacted = 0usize;
+        for wal_path in compactable {
+            match std::fs::remove_file(&wal_path) {
+                Ok(()) => compacted += 1,
+                Err(e) if e.kind() == std::io::ErrorKind::NotFound => {}
+                Err(e) => {
+                    error!(
+                        wal_segment = %wal_path.display(),
+                        error = %e,
+                        "failed to delete compacted WAL segment; leaving unreferenced file behind",
+                    );
+                }
+            }
+        }
         if compacted > 0 {
             info!(
                 compacted_segments = compacted,
@@ -2189,9 +2210,6 @@ impl HnswBackend {
                 "WAL compaction complete"
             );
         }
-
-        manifest.latest_snapshot_wal_seq = Some(last_wal_seq);
-        manifest.save(&manifest_path)?;
 
         // Reset insert counter
         *persistence.inserts_since_snapshot.write() = 0;
@@ -2952,12 +2970,13 @@ impl HnswBackend {
     /// - `manifest`: Manifest to update (removes deleted WAL segments)
     ///
     /// # Returns
-    /// Number of WAL segments deleted
+    /// Paths of the WAL segments that are fully covered and were dropped from `manifest`;
+    /// the caller deletes them after the pruned manifest has been persisted.
     ///
     /// # Safety
-    /// - Only deletes WAL segments listed in manifest (controlled cleanup)
+    /// - Only selects WAL segments listed in manifest (controlled cleanup)
     /// - Always keeps the current active WAL segment (last in list)
-    /// - Updates manifest atomically after successful deletion
+    /// - Never removes a file itself, so a crash cannot leave the manifest listing a missing segment
     #[instrument(level = "debug", skip(self, data_dir, manifest), fields(snapshot_seq = snapshot_last_wal_seq, snapshot_ts = snapshot_timestamp))]
     fn compact_old_wal_segments(
         &self,
@@ -2965,13 +2984,13 @@ impl HnswBackend {
         snapshot_last_wal_seq: u64,
         snapshot_timestamp: u64,
         manifest: &mut Manifest,
-    ) -> Result<usize> {
-        let mut deleted_count = 0;
+    ) -> Result<Vec<PathBuf>> {
+        let mut segments_to_delete = Vec::new();
         let mut segments_to_keep = Vec::new();
 
         if snapshot_last_wal_seq == 0 && snapshot_timestamp == 0 {
             warn!("snapshot has no sequence or timestamp; skipping WAL compaction for safety");
-            return Ok(0);
+            return Ok(segments_to_delete);
         }
 
         // Always keep the last WAL segment (active WAL)
@@ -3058,42 +3077,25 @@ impl HnswBackend {
             }
 
             if all_entries_covered {
-                match std::fs::remove_file(&wal_path) {
-                    Ok(()) => {
-                        debug!(
-                            wal_segment = wal_name,
-                            wal_max_seq = max_seq,
-                            wal_max_ts = max_timestamp,
-                            snapshot_seq = snapshot_last_wal_seq,
-                            snapshot_ts = snapshot_timestamp,
-                            "deleted old WAL segment",
-                        );
-                        deleted_count += 1;
-                    }
-                    Err(e) if e.kind() == std::io::ErrorKind::NotFound => {
-                        warn!(
-                            wal_segment = wal_name,
-                            "WAL segment already missing (skipping)"
-                        );
-                    }
-                    Err(e) => {
-                        error!(
-                            wal_segment = wal_name,
-                            error = %e,
-                            "failed to delete old WAL segment",
-                        );
-                        segments_to_keep.push(wal_name.clone());
-                    }
-                }
+                debug!(
+                    wal_segment = wal_name,
+                    wal_max_seq = max_seq,
+                    wal_max_ts = max_timestamp,
+                    snapshot_seq = snapshot_last_wal_seq,
+                    snapshot_ts = snapshot_timestamp,
+                    "selected old WAL segment for deletion",
+                );
+                segments_to_delete.push(wal_path);
             } else {
                 segments_to_keep.push(wal_name.clone());
             }
         }
 
-        // Update manifest with remaining segments
+        // Update manifest with remaining segments. The caller persists it before the
+        // selected files are removed.
         manifest.wal_segments = segments_to_keep;
 
-        Ok(deleted_count)
+        Ok(segments_to_delete)
     }
 }
 
